@@ -60,11 +60,17 @@ def parseFlag : Sx → Option Bool
   | .atom "0" => some false
   | _ => none
 
+/-- the flag checks in execution order: a string over `s`/`w`, `-` for none -/
+def parseChecks (s : String) : Option (List Chk) :=
+  if s == "-" then some [] else
+  s.toList.mapM (fun c => if c == 's' then some Chk.signer else if c == 'w' then some Chk.writable else none)
+
 partial def parseShape : Sx → Option SetShape
-  | .list [.atom "single", s, w, .atom k] => do
+  | .list [.atom "single", s, w, .atom k, .atom cs] => do
     let s ← parseFlag s
     let w ← parseFlag w
-    if k == "-" then pure (.single s w none) else pure (.single s w (some (← parseName k)))
+    let cs ← parseChecks cs
+    if k == "-" then pure (.single s w none cs) else pure (.single s w (some (← parseName k)) cs)
   | .list [.atom "opt", x] => (parseShape x).map .opt
   | .list [.atom "vec", x] => (parseShape x).map .vec
   | .list [.atom "rest", x] => (parseShape x).map .rest
@@ -94,7 +100,7 @@ mutual
 /-- The harness's `ClientAccounts` types: the default key (`-`) exists only for a bare
 `Program<_>` / `Sysvar<_>` (`Option<Pubkey>`); under `Signer`/`Mut` the client type is `Pubkey`. -/
 def harnessTyped : SetShape → ClientVal → Bool
-  | .single sg wr fk, .key k => k.isSome || (fk.isSome && !sg && !wr)
+  | .single sg wr fk cs, .key k => k.isSome || (fk.isSome && !sg && !wr && cs.isEmpty)
   | .opt _, .absent => true
   | .opt s, .present v => harnessTyped s v
   | .vec s, .many vs => vs.all (harnessTyped s)
